@@ -197,18 +197,23 @@ def ob_merge2_error(ep: int, nb: int, a0: int, a1: int, ed: int, b0: int, b1: in
     return _merge_scenario([2, nb], [[a0, a1, 0], [b0, b1, b2]], 0, ep, ed, o)
 
 
-@obligation(quick=150, thorough=500,
-            partitions_quick=[f"o == {o}" for o in range(6)],
-            partitions_thorough=[f"o == {o} and er == {e}" for o in range(6) for e in (-1, 2)],
-            what="merge of 3 sources (batches of up to 3 completions, all 6 done-set orders), optional error in source 2",
-            bounds={"sources": 3, "items per source": "2, 1..2, 1", "delay": "0..DQ"})
-def ob_merge3(nb: int, a0: int, a1: int, b0: int, b1: int, c0: int, er: int, o: int) -> bool:
+@obligation(quick=200, thorough=500,
+            partitions_quick=[f"o == {o} and cd == {c}" for o in range(6) for c in (0, 1)],
+            partitions_thorough=[f"o == {o} and er == {e} and cd == {c}" for o in range(6) for e in (-1, 2) for c in (0, 1, 2)],
+            what="merge of 3 sources (batches of up to 3 completions, all 6 done-set orders), optional error in source 2, a consumer that "
+                 "awaits between items (so a source can complete while the merge is suspended between two results of one batch)",
+            bounds={"sources": 3, "items per source": "2, 1..2, 1..2", "delay": "0..DQ", "consumer delay": "0..1 (thorough 2)"})
+def ob_merge3(nb: int, a0: int, a1: int, b0: int, b1: int, c0: int, er: int, o: int, cd: int = 0, nc: int = 1, c1: int = 0) -> bool:
     """
     pre: 1 <= nb <= 2 and 0 <= a0 <= DQ and 0 <= a1 <= DQ and 0 <= b0 <= DQ and 0 <= b1 <= DQ and 0 <= c0 <= DQ and 0 <= o <= 5
     pre: (er == -1 or er == 2) and (nb > 1 or b1 == 0)
+    pre: 0 <= cd <= CDMAX and 1 <= nc <= 2 and 0 <= c1 <= DQ and (nc > 1 or c1 == 0)
     post: _
     """
-    return _merge_scenario([2, nb, 1], [[a0, a1, 0], [b0, b1, 0], [c0, 0, 0]], er, 1, 0, o)
+    return _merge_scenario([2, nb, nc], [[a0, a1, 0], [b0, b1, 0], [c0, c1, 0]], er, 1, 0, o, consumer_delay=cd)
+
+
+CDMAX = B(1, 2)
 
 
 # --------------------------------------------------------------------------------------- debounced_sorted_prefix
